@@ -48,6 +48,7 @@ HANDLERS = [
     ("transfer_to_new_account", "marginfi_account/transfer_account.rs", "transfer_to_new_account"),
     ("transfer_to_new_account_pda", "marginfi_account/transfer_account.rs", "transfer_to_new_account_pda"),
     ("check_flashloan_can_start", "marginfi_account/flashloan.rs", "check_flashloan_can_start"),
+    ("close_account", "marginfi_account/close.rs", "close_account"),
     ("re_pre_liquidation", "../state/marginfi_account.rs", "check_pre_liquidation_condition_and_get_account_health"),
     ("re_post_liquidation", "../state/marginfi_account.rs", "check_post_liquidation_condition_and_get_account_health"),
     ("re_check_bankrupt", "../state/marginfi_account.rs", "check_account_bankrupt"),
@@ -100,6 +101,7 @@ PATTERNS = [
     (r"\bstart_receivership\s*\(", lambda m: "call_start_receivership"),
     (r"\bend_receivership\s*\(", lambda m: "call_end_receivership"),
     (r"\bcheck_flashloan_can_start\s*\(", lambda m: "call_can_start"),
+    (r"\.\s*can_be_closed\s*\(", lambda m: "can_be_closed"),
 ]
 
 
@@ -195,6 +197,7 @@ SIMPLE = {"asset_tags": "assetTags", "capacity": "capacity", "find_or_create": "
           "premium_check": "premiumCheck", "call_start_receivership": "callStartReceivership",
           "call_end_receivership": "callEndReceivership", "call_can_start": "callCanStart",
           "zero_asset_price_check": "zeroAssetPriceCheck", "zero_liab_price_check": "zeroLiabPriceCheck",
+          "can_be_closed": "canBeClosed",
           "over_liq_check": "overLiqCheck", "migrated_check": "migratedCheck", "set_migrated_to": "setMigratedTo",
           "zero_array": "zeroArray", "move_array": "moveArray"}
 
@@ -219,7 +222,7 @@ inductive Ev
   | setFlag (f : AFlag) | unsetFlag (f : AFlag) | returnOk | validateIxs | notCpi | notCpiSysvar | copyFlags
   | clearReceiver | worseHealthCheck | premiumCheck | callStartReceivership | callEndReceivership | callCanStart
   | zeroAssetPriceCheck | zeroLiabPriceCheck | overLiqCheck
-  | migratedCheck | setMigratedTo | zeroArray | moveArray
+  | migratedCheck | setMigratedTo | zeroArray | moveArray | canBeClosed
   deriving DecidableEq, Repr
 """
 
